@@ -204,6 +204,8 @@ def specs(tier, volume=1):
                 if quick and kind == "qmpt" and sh != "typical":
                     continue
                 out.append(("qutrit", sh, ph, kind, flag, m))
+            if flag:                  # physical testers derived with the library's arithmetic (flagged non-validated)
+                out.append(("qubit", "derived", "derived", kind, flag, 2))
             if kind != "povmt":       # tester POVMs with different outcome counts (over-complete sets)
                 out.append(("qubit", "typical", "mixed", kind, flag, 2))
                 out.append(("qubit", "random_over", "mixed", kind, flag, 2))
